@@ -57,7 +57,10 @@ def run_cell(cell):
             def nextRandom(self):
                 self.k += 1
                 return SV(outs[self.k - 1])
-        cv = [CVR(id=i, votes={"c": aud.Poison()}) for i in range(M)]
+        # a record may already carry a number (renumbering with a new seed, records restored from a file): it must not matter
+        had = [z3.Bool(f"had{i}") for i in range(M)]
+        old = [z3.Int(f"old{i}") for i in range(M)]
+        cv = [CVR(id=i, votes={"c": aud.Poison()}, sample_num=(SV(old[i]) if bool(SB(had[i])) else None)) for i in range(M)]
         ok = CVR.assign_sample_nums(cv, P())
         st['reach'] += 1
         for i in range(M):
@@ -69,7 +72,9 @@ def run_cell(cell):
             else:
                 r, mdl = ex.prove((s == SV(outs[i])))
                 if r == 'sat':
-                    findings.append(dict(clause="sample number i is the i-th PRNG output", cell=cell, inputs={"outputs": [model_value(mdl, o) for o in outs]}))
+                    findings.append(dict(clause="sample number i is the i-th PRNG output", cell=cell,
+                                         inputs={"outputs": [model_value(mdl, o) for o in outs],
+                                                 "previous_numbers": [int(model_value(mdl, old[k])) if bool(model_value(mdl, had[k])) else None for k in range(M)]}))
         samples.append(dict(cell="prng", note="sample numbers are the PRNG outputs in card order"))
 
     def harness(ex):
@@ -167,7 +172,8 @@ def replay(f):
     cell, inp = f["cell"], f["inputs"]
     if cell["kind"] == "prng":
         from cryptorandom.cryptorandom import SHA256, int_from_hash
-        cv = [A.CVR(id=i, votes={}) for i in range(cell["M"])]
+        prev = inp.get("previous_numbers") or [None] * cell["M"]
+        cv = [A.CVR(id=i, votes={}, sample_num=prev[i]) for i in range(cell["M"])]
         A.CVR.assign_sample_nums(cv, SHA256(12345))
         p = SHA256(12345)
         want = [int_from_hash(p.nextRandom()) for _ in cv]
